@@ -21,6 +21,10 @@ def run(ctx):
                                         pick="insertion", ttls=(10,), ticks=(10,), delays=(0,)), 4)],
             "drv": [("drv", "all", 120, 60, dict(churn_every=60))],
         }
+        # delivered-retention depth guard + memory-pressure guard + drop_oldest together (memory): a refused batch must evict nothing
+        guard = q.spec_cfg(maxDepth=2, drop="drop_oldest", delivMaxAge=100000, pressItems=1)
+        plan["gen"].append(("guards", guard, dict(ids=3, family=("lease", "admission"), horizon=0, maxep=1, maxins=3, pick="insertion",
+                                                  ttls=(10,), ticks=(10,), delays=(0,)), 4))
     else:
         mc = []
         for nm, c in (("drop", drop), ("ret", ret), ("reject", q.spec_cfg(maxDepth=2)), ("open", q.spec_cfg())):
